@@ -49,6 +49,8 @@ def compute_domains_exactly_eq(domains: NDArray, parameters: NDArray) -> int:
     c = parameters[1]
     count_max = len(domains) - c
     count_min = -c
+    if count_max < 0 or count_min > 0:  # c is not in [0, n]
+        return PROP_INCONSISTENCY
     for domain in domains:
         if domain[MIN] > a or domain[MAX] < a:
             count_max -= 1
